@@ -1,6 +1,7 @@
 """Native triage for contracts/c09_edits.py: the solver's counter-models are rebuilt as real datasets (writer.merge over
 fastparquet-written files) and the real functions are run on them.
   - C09-P-sort-part-names-number-collision (open known finding): must still reproduce (CONFIRMED);
+  - C09-P-overwrite-timestamp-partition-text / C09-P-overwrite-float32-partition-text (open): must reproduce (CONFIRMED);
   - the two defects repaired in /repo (7ff1610 partial removal refused for every dataset, 75dfd7f every row group of a renamed file
     is relabelled): the repaired behaviour is asserted (REPAIRED), the old failure would print STILL BROKEN and exit 1.
    tools/c09edits_native.py      (touches only a temp directory)"""
@@ -70,6 +71,24 @@ try:
     ok = got == [5, 6] and files(d) == ["a=2/part.1.parquet"]
     bad += 0 if ok else 1
     print("remove whole file:", "ok" if ok else "BROKEN", "| files", files(d), "| read-back", got)
+    # overwrite.partition_text_conventions_agree[datetime64 ...] / [float32 (inexact decimals)] (open known findings): real write +
+    # write(append='overwrite'); the overwritten partition keeps its old rows
+    import numpy as np, warnings
+    warnings.filterwarnings("ignore")
+    def ow(name, fid, col1, col2, expect_defect):
+        d = os.path.join(root, "ow-" + name)
+        write(d, pd.DataFrame({"x": [1, 2, 3, 4], "p": col1}), file_scheme="hive", partition_on=["p"])
+        write(d, pd.DataFrame({"x": [10, 20], "p": col2}), file_scheme="hive", partition_on=["p"], append="overwrite")
+        got = sorted(ParquetFile(d).to_pandas().x.tolist())
+        defect = got != [3, 4, 10, 20]
+        print(f"{fid}:", ("CONFIRMED" if defect else "not confirmed") if expect_defect else ("ok" if not defect else "BROKEN"),
+              "| dirs", sorted(x for x in os.listdir(d) if not x.startswith("_")), "| read-back x", got)
+        return defect == expect_defect
+    ts = pd.to_datetime(["2020-01-01", "2020-01-01", "2021-06-01", "2021-06-01"])
+    ow("ts", "C09-P-overwrite-timestamp-partition-text", ts, ts[:2], True)
+    ow("f32", "C09-P-overwrite-float32-partition-text", np.array([0.1, 0.1, 2.5, 2.5], dtype="float32"), np.array([0.1, 0.1], dtype="float32"), True)
+    bad += 0 if ow("bool", "overwrite on a bool partition (agrees)", [True, True, False, False], [True, True], False) else 1
+    bad += 0 if ow("f64", "overwrite on a float64 partition (agrees)", [0.1, 0.1, 2.5, 2.5], [0.1, 0.1], False) else 1
 finally:
     shutil.rmtree(root, ignore_errors=True)
 sys.exit(1 if bad else 0)
